@@ -417,6 +417,25 @@ pub fn deliver(
     (res, None)
 }
 
+/// Same through the single-session `Receiver` and its `push_data` entry point (public API of its own)
+pub fn deliver_direct(mon: &Mon, cfg: receiver::Config, tsi: u64, pkts: &[(SystemTime, Vec<u8>)]) -> (Vec<Result<(), String>>, Option<String>) {
+    let ep = endpoint();
+    let mut rx = receiver::Receiver::new(&ep, tsi, mon.builder(), Some(cfg));
+    let mut res = Vec::with_capacity(pkts.len());
+    for (t, p) in pkts {
+        match catch(|| rx.push_data(p, *t)) {
+            Ok(Ok(())) => res.push(Ok(())),
+            Ok(Err(e)) => res.push(Err(format!("{:?}", e.0.to_string()))),
+            Err(p) => {
+                std::mem::forget(rx);
+                return (res, Some(p));
+            }
+        }
+    }
+    drop(rx);
+    (res, None)
+}
+
 pub fn md5_b64(data: &[u8]) -> String {
     use base64::Engine;
     base64::engine::general_purpose::STANDARD.encode(md5::compute(data).0)
